@@ -8,3 +8,4 @@ CONSTANTS
   Values <- MCValues
   CanBeDisabled <- MCCanBeDisabled
   MaxOps = 4
+  DefaultValues <- MCNoDefaults
